@@ -33,7 +33,7 @@ class Ctx:
 
         from .report import Report
 
-        key = (module, rep.prop, rep.tier)
+        key = (module, "*" if getattr(self, "shared_rule_cache", False) else rep.prop, rep.tier)
         if key in self._rule_cache:
             return self._rule_cache[key]
         sub = Report(rep.prop, rep.tier)
@@ -129,7 +129,11 @@ class Ctx:
                 g_rets = [n for n in own_nodes(callee.node) if isinstance(n, ast.Return)]
                 if g_rets and all(isinstance(r.value, ast.Name) and r.value.id in callee.params for r in g_rets) and len({r.value.id for r in g_rets}) == 1:
                     pname = g_rets[0].value.id
-                    plain = all(isinstance(s, (ast.If, ast.Raise, ast.Return, ast.Assert)) for s in body)
+                    from .inline import _always_terminates
+
+                    # whatever else it does (tests, conversions it throws away, logging): it either raises or hands
+                    # back that very argument
+                    plain = all(isinstance(s, (ast.If, ast.Raise, ast.Return, ast.Assert)) for s in body) or _always_terminates(body)
                     rebinds = any(isinstance(n, ast.Name) and n.id == pname and isinstance(n.ctx, ast.Store) for n in own_nodes(callee.node))
                     if plain and not rebinds:
                         gb = bind_call_args(node, callee.params, skip_self=callee.cls is not None and bool(callee.params) and callee.params[0] in ("self", "cls"))
